@@ -101,25 +101,42 @@ class Iv:
         return '%s%s, %s%s' % ('(' if self.lo_open else '[', self.lo, self.hi, ')' if self.hi_open else ']')
 
 
+BIG = Fr(10) ** 40
+
+
+def _combo(co):
+    """canonical key of a linear combination sum co_v v: (key, scale) with the combination = scale * (v0 + ...)"""
+    vs = sorted(co)
+    s0 = co[vs[0]]
+    return tuple((v, co[v] / s0) for v in vs), s0
+
+
 def refine(env, rel, lhs, rhs, F):
-    """env: {atom: Iv}.  Constrain by  lhs REL rhs  (REL in lt/eq/gt) when lhs - rhs is linear in ONE rem atom."""
+    """env: {key: Iv} with key an atom (x % F, or a plain input) or the canonical key of a linear combination of atoms.
+    Constrain by  lhs REL rhs  when lhs - rhs is linear."""
     lin = linear(lhs - rhs)
     if lin is None:
         return env
     c, co = lin
-    if len(co) != 1:
+    co = {v: k for v, k in co.items() if k != 0}
+    if not co:
         return env
-    (v, beta), = co.items()
-    if rem_atom(v, F) is None or beta == 0:
-        return env
-    if v not in env:
-        env[v] = Iv(Fr(-1), True, Fr(1), True)
+    if len(co) == 1:
+        (v, beta), = co.items()
+        key = v
+        default = Iv(Fr(-1), True, Fr(1), True) if rem_atom(v, F) is not None else Iv(-BIG, True, BIG, True)
+    else:
+        key, beta = _combo(co)
+        default = Iv(-BIG, True, BIG, True)
+    env = dict(env)
+    if key not in env:
+        env[key] = default
     # c + beta * R  REL 0   (R in absolute units)  ->  R/F REL' -c/(beta F)
     bound = -c / beta / F
-    iv = env[v]
+    iv = env[key]
     r = rel
     if beta < 0:
-        r = {'lt': 'gt', 'gt': 'lt'}.get(r, r)
+        r = {'lt': 'gt', 'gt': 'lt', 'le': 'ge', 'ge': 'le'}.get(r, r)
     if r == 'lt':
         iv = iv.meet_lt(bound, True)
     elif r == 'gt':
@@ -130,8 +147,7 @@ def refine(env, rel, lhs, rhs, F):
         iv = iv.meet_gt(bound, False)
     elif r == 'eq':
         iv = iv.meet_lt(bound, False).meet_gt(bound, False)
-    env = dict(env)
-    env[v] = iv
+    env[key] = iv
     return env
 
 
@@ -142,8 +158,16 @@ def interval_of(e, env, F):
         return None
     c, co = lin
     cur = Iv(c / F, False, c / F, False)
+    # a bounded linear combination of plain inputs (a1 - a0 in [0, F) on this path) taken as a whole
+    plain = {v: k for v, k in co.items() if k != 0 and rem_atom(v, F) is None and v not in env}
+    if len(plain) >= 2:
+        key, scale = _combo(plain)
+        if key in env:
+            iv = env[key].affine(Fr(0), scale)
+            cur = Iv(cur.lo + iv.lo, cur.lo_open or iv.lo_open, cur.hi + iv.hi, cur.hi_open or iv.hi_open)
+            co = {v: k for v, k in co.items() if v not in plain}
     for v, k in co.items():
-        if rem_atom(v, F) is None:
+        if rem_atom(v, F) is None and v not in env:
             return None
         iv = env.get(v, Iv(Fr(-1), True, Fr(1), True)).affine(Fr(0), k)
         cur = Iv(cur.lo + iv.lo, cur.lo_open or iv.lo_open, cur.hi + iv.hi, cur.hi_open or iv.hi_open)
